@@ -1110,14 +1110,16 @@ func callBuiltin(caller *frame, callpos token.Pos, fn *ssa.Builtin, args []value
 	panic("unknown built-in: " + fn.Name())
 }
 
-func rangeIter(i *interpreter, x value, t types.Type) iter {
+func rangeIter(i *interpreter, x value, t types.Type, permute bool) iter {
 	switch x := x.(type) {
 	case *gomap:
 		var keys []value
 		if x != nil {
 			keys = append(keys, x.keys...)
 		}
-		keys = i.permuteKeys(keys)
+		if permute {
+			keys = i.permuteKeys(keys)
+		}
 		return &mapIter{m: x, keys: keys}
 	case string:
 		return &stringIter{Reader: strings.NewReader(x)}
